@@ -159,6 +159,7 @@ type zzRouteCfg struct {
 	arg    string
 	hdr    string // required value of header "h" ("" = no header condition)
 	method string // required request method ("" = no method condition)
+	regex  string // path regular expression (overrides prefix/arg when set)
 }
 
 func zzBuild(doms []zzDomain, routes [][]zzRouteCfg) *v2.RouterConfiguration {
@@ -167,7 +168,9 @@ func zzBuild(doms []zzDomain, routes [][]zzRouteCfg) *v2.RouterConfiguration {
 		vh := v2.VirtualHost{Name: "vh" + string(rune('0'+i)), Domains: []string{d.String()}}
 		for j, rc := range routes[i] {
 			r := v2.Router{}
-			if rc.prefix {
+			if rc.regex != "" {
+				r.Match.Regex = rc.regex
+			} else if rc.prefix {
 				r.Match.Prefix = rc.arg
 			} else {
 				r.Match.Path = rc.arg
@@ -189,7 +192,9 @@ func zzBuild(doms []zzDomain, routes [][]zzRouteCfg) *v2.RouterConfiguration {
 func zzRefRoute(vh int, rcs []zzRouteCfg, path, hv, method string) string {
 	for j, rc := range rcs {
 		m := false
-		if rc.prefix {
+		if rc.regex != "" {
+			m = zzRegexP(path) // the only regular expression configured is zzRegexPSrc
+		} else if rc.prefix {
 			m = strings.HasPrefix(path, rc.arg)
 		} else {
 			m = zzLower(path) == zzLower(rc.arg)
@@ -311,13 +316,16 @@ func VerifC04_RouteOrder() {
 // VerifC04_RouteMethod: a route's method condition (configured as the header
 // matcher named "method") holds only for requests whose method variable
 // equals it, alone or together with an ordinary header condition; the first
-// route in configuration order whose matchers all hold is used. Paths are
-// catch-all prefixes here (path matching is RouteOrder's subject).
+// route in configuration order whose matchers all hold is used. Routes are
+// catch-all prefixes or the regular expression ^/p.*$ (regex rules have their own Match).
 func VerifC04_RouteMethod() {
 	nr := 1 + verif.Choose("nr", verif.Param("mroutes", 2, 3))
 	var rcs []zzRouteCfg
 	for j := 0; j < nr; j++ {
 		rc := zzRouteCfg{prefix: true, arg: "/"}
+		if verif.Choose("regex_route", 2) == 1 {
+			rc.regex = zzRegexPSrc
+		}
 		if verif.Choose("hashdr", 2) == 1 {
 			rc.hdr = "x"
 		}
@@ -328,8 +336,9 @@ func VerifC04_RouteMethod() {
 	verif.Assume(err == nil)
 	hv := zzLetters("reqhv", 1, "xy")
 	method := []string{"", "GET", "POST", "get"}[verif.Choose("req_method", 4)] // "" = no method variable (non-HTTP protocol)
-	want := zzRefRoute(0, rcs, "/p", hv, method)
-	got := zzMatchM(rs, "a", "/p", hv, method)
+	path := []string{"/p", "/pq", "/q"}[verif.Choose("req_path", 3)]
+	want := zzRefRoute(0, rcs, path, hv, method)
+	got := zzMatchM(rs, "a", path, hv, method)
 	verif.Assert(got == want, "selected route ignores or misapplies a method condition")
 	if want != "" {
 		verif.Cover("matched")
@@ -402,3 +411,8 @@ func VerifC04_RPCRule() {
 	}
 	verif.Cover("end")
 }
+
+// zzRegexPSrc is the one path regular expression the harnesses configure; zzRegexP is its meaning.
+const zzRegexPSrc = "^/p.*$"
+
+func zzRegexP(path string) bool { return strings.HasPrefix(path, "/p") }
